@@ -3,15 +3,45 @@
 // Contracts for package maps (compiled only with -tags=verif; checked by /verif/bin/govc).
 package maps
 
-// The per-name mutexes serialise callers; they have no effect on the modelled heap. Trusted: the bodies use sync.Map
-// and reference counting that the engine does not model; mutual exclusion per name is an assumption where it is used.
+// The per-name mutexes serialise callers; they have no effect on the heap the callers' contracts talk about.
 // Bookkeeping for "every per-name lock taken is released on every path" (C04): mmHeld counts Lock calls minus Unlock calls.
+//
+// Lock and Unlock are verified (C04): the table `locks` is only touched under the table mutex (lockset obligations from
+// `guarded maps.MutexMap: locks by mutex`), the table mutex is released before every return, a waiter is counted while
+// the table mutex is still held - the step that keeps Unlock from deleting an entry another caller is about to wait on -
+// the per-name mutex is acquired only after the table mutex has been released (waiting for a name must not block the
+// table), and Unlock reads the waiter count, deletes the entry and releases the per-name mutex inside one critical
+// section of the table mutex. Mutual exclusion per name itself - the composition of these steps over all interleavings -
+// stays an assumption where callers use it.
 //@ func (*MutexMap).Lock(l, name) ()
-//@   trusted
-//@   pure
+//@   modifies contents(l.locks)
 //@   ghostset mmHeld := mmHeld + 1
+//@   before_call inc#1 [waiter_counted_under_table_lock] held(l.mutex)
+//@   before_call Lock#2 [name_lock_awaited_outside_table_lock] !held(l.mutex)
 
 //@ func (*MutexMap).Unlock(l, name) (err)
+//@   modifies contents(l.locks)
+//@   ghostset mmHeld := mmHeld - 1
+//@   before_call count#1 [waiters_read_under_table_lock] held(l.mutex)
+//@   before_call Unlock#2 [name_lock_released_under_table_lock] held(l.mutex)
+
+// One-line wrappers over sync/atomic and sync.Mutex: trusted.
+//@ func (*wrappedMutex).inc(l) ()
 //@   trusted
 //@   pure
-//@   ghostset mmHeld := mmHeld - 1
+
+//@ func (*wrappedMutex).dec(l) ()
+//@   trusted
+//@   pure
+
+//@ func (*wrappedMutex).count(l) (n)
+//@   trusted
+//@   pure
+
+//@ func (*wrappedMutex).Lock(l) ()
+//@   trusted
+//@   pure
+
+//@ func (*wrappedMutex).Unlock(l) ()
+//@   trusted
+//@   pure
